@@ -294,9 +294,12 @@ fn run(ctx: &mut Ctx) {
                     continue;
                 }
                 ctx.progress(job);
-                let p = Point { stack: STACKS[s], env: ENVS[0], len: "7", opt: "none", big: Some((pos, big)), nargs_override: Some(12) };
-                if let Some((sig, detail)) = run_point(ctx, &p) {
-                    ctx.rep.violation(&sig, detail, json!({"prop":"C06","stack":s,"env":0,"len":2,"opt":0,"big":[pos,big]}));
+                // without and with a user limit above every budget (-s must not lift the per-string cap)
+                for (oi, opt) in [(0usize, "none"), (2, "-s-huge")] {
+                    let p = Point { stack: STACKS[s], env: ENVS[0], len: "7", opt, big: Some((pos, big)), nargs_override: Some(12) };
+                    if let Some((sig, detail)) = run_point(ctx, &p) {
+                        ctx.rep.violation(&sig, detail, json!({"prop":"C06","stack":s,"env":0,"len":2,"opt":oi,"big":[pos,big]}));
+                    }
                 }
             }
         }
